@@ -17,7 +17,7 @@ TEXT = {
  "C09": ("proof", "Wait-free half: every known-size pulling function is loop- and recursion-free, terminates (Verus termination check on the real bodies) and performs exactly one atomic RMW whatever it returns ([ops] clauses; std-level Kani logs). Wrapped iterator: safety half (a holder that returns has published its whole reservation or set completed: proved; T-progress lemma); liveness under fairness is not claimed.", "5 C09"),
  "C10": ("proof", "L1 contract of into_seq_iter (slice: Verus, exact skip spec; range: Kani complete) + lemma K2 (remainder = [min(c,len), len) is disjoint from and complementary to the delivered set).  vec/array/wrapped: bounded Kani.", "5 C10"),
  "C11": ("proof", "L1: try_get_len is one load c and returns max(len - c, 0), has_more is No/Yes(n) from that (Verus on real bodies incl. the trait default has_more, and try_get_len / has_more of the wrapped iterator; range: Kani complete); lemmas K6 (never increases, zero is definitive), K2 (truthful at quiescence).", "5 C11"),
- "C12": ("model_checking", "Verus (unbounded, slice kind): the real bodies of default_fns::for_each and for_each_with_ids, both arms, under contract with a ghost log of closure invocations: every reservation of the call is FetchAdd(chunk_size), the closure is invoked exactly once, in order, on exactly the positions (and, for enumerate_for_each, with exactly the indices) those reservations cover, and the call returns only after a reservation observed the end (BufferedIter::next composition, Iterator::for_each / for-over-enumerate semantics trusted and listed). fold, other kinds and interference: bounded Kani harnesses of for_each / enumerate_for_each / fold on the real code under monotone interference: the closure runs once per own reservation with the right index, the call returns only after observing the end; over wrapped iterators with arbitrary size hints: every element once, in order, and the call returns (sequential).", "5 C12"),
+ "C12": ("model_checking", "Verus (unbounded, slice kind, no assumed contract): the real bodies of default_fns::for_each, for_each_with_ids and fold (both arms, native for loop over the chunk) with BufferedIter::{new,next}, buffered_iter, BufferedSlice::{new,pull} under contract, with ghost logs of the closure invocations: every reservation of the call is FetchAdd(chunk_size), the closure is invoked exactly once, in order, on exactly the positions (for enumerate_for_each: with exactly the indices) those reservations cover, fold threads one accumulator chain from neutral to the result, and the call returns only after a reservation observed the end (closure-call logging shim and Iterator::for_each / for-over-enumerate semantics trusted and listed). Other kinds and interference: bounded Kani harnesses of for_each / enumerate_for_each / fold on the real code under monotone interference: the closure runs once per own reservation with the right index, the call returns only after observing the end; over wrapped iterators with arbitrary size hints: every element once, in order, and the call returns (sequential).", "5 C12"),
  "C13": ("model_checking", "Forwarding methods and single pulls (fetch_one / next, overrides included) of cloned()/copied() over a slice iterator under Verus contract (same effects on the underlying counter, same end / index / length answers); relational bounded Kani harness: the same operation on X.cloned()/X.copied() and on X from the same state gives equal indices, lengths, end/skip behaviour and cloned values, for slice and wrapped underlying iterators; adaptor pulls under arbitrary interference (havoc'd counter) derive everything from their own fetch_add; adaptor chunk size complete.", "5 C13"),
  "C15": ("model_checking", "CBMC --memory-leak-check as a postcondition of the per-operation harnesses ending in drop / into_seq_iter (vec, array), plus the ledger clause 'never neither'.  Bounded in length.", "5 C15"),
  "C16": ("proof", "Every + and - of the verbatim bodies carries Verus's overflow obligation, verified WITHOUT the no-wrap assumption over the full usize domain; the range kind and buffered pulls by loop-free full-domain Kani with overflow checks; chunk size 0 clauses.", "5 C16"),
